@@ -156,3 +156,12 @@ def register(check, not_yet):
           "The schedules quantifier (2-3 consumer threads, deadlock freedom) is NOT decided: the mutual exclusion lives in native Rust "
           "(parking_lot ReentrantMutex under the GIL), outside what CrossHair or my translator can encode. Data is concrete per path.",
           "CrossHair (z3) exploration of solver-chosen consumption histories on the real lazy sequences", "DESIGN.md section 4 C06, section 5", "A:crosshair")
+    check("C04", "exploration",
+          "Bounded history exploration under CrossHair on the real wrapper classes and core functions: operation codes, the earlier value "
+          "to operate on (branching histories), keys (incl. two objects with colliding hashes) and values are solver-chosen; a Python "
+          "model (list / dict / set + metadata) is updated alongside and every value ever produced is compared with its model at the end "
+          "(so a mutation of an earlier version, e.g. through a transient, is caught); with-meta must give an equal, equal-hash value "
+          "carrying exactly the given metadata and leave the original's metadata alone.",
+          "Weakest kind of claim in this family: the C cores of pyrsistent / immutables run concretely; history length 2 (quick) / 3 "
+          "(thorough) from seeds of 0, 3 or 34 elements. Metadata of derived values (pop, into, ...) is not prescribed by the property and not checked.",
+          "CrossHair (z3) exploration of solver-chosen operation histories vs a Python model", "DESIGN.md section 4 C04", "A:crosshair")
